@@ -78,12 +78,14 @@ theorem delCell_preserves (m : Mesh) (k : Id) (h1 : m.keysOk = true) (h2 : m.own
 
 /-- Surface Evolver's orphan removal keeps the mesh consistent -/
 theorem orphanRemoval_consistent (m : Mesh) (h : m.Consistent = true) : m.orphanRemoval.Consistent = true := by
-  sorry
+  rw [consistent_iff] at h ⊢
+  exact orphanRemoval_consP m h
 
 /-- after `generate_mesh` (no merging) clause (1) holds again: the rebuilt mesh edges are registered on
     exactly their end vertices, provided the input was consistent -/
 theorem generateMesh_ownEdgesOk (m : Mesh) (ne : Nat) (hne : 0 < ne) (h : m.Consistent = true) :
     (m.generateMesh ne false).mesh.ownEdgesOk = true := by
+  have _ := hne
   rw [consistent_iff] at h
   exact (ownEdgesOk_iff _).mpr (generateMesh_ownEdgesP m ne h.1 h.2.1)
 
@@ -94,6 +96,19 @@ example : WFInput [(0, 0, 0), (1, 1, 0), (2, 0, 1), (3, 1, 1)]
 
 example : (ofLists [(0, 0, 0), (1, 1, 0), (2, 0, 1), (3, 1, 1)]
     [(0, 0, 1), (1, 1, 2), (2, 2, 0), (3, 1, 3), (4, 3, 2)] [(0, [0, 1, 2]), (1, [1, 3, 2])]).Consistent = true := by
+  decide +kernel
+
+/-! non-vacuity of the editing theorems: the hypotheses of `delEdge_preserves` / `delCell_preserves` hold for
+    that mesh, and a consistent mesh with an orphan vertex (4, hanging on mesh edge 5) exists, which
+    `orphanRemoval` really removes -/
+example : let m := (ofLists [(0, 0, 0), (1, 1, 0), (2, 0, 1), (3, 1, 1)]
+      [(0, 0, 1), (1, 1, 2), (2, 2, 0), (3, 1, 3), (4, 3, 2)] [(0, [0, 1, 2]), (1, [1, 3, 2])]);
+    m.keysOk = true ∧ m.ownEdgesOk = true ∧ m.ownCellsOk = true ∧ m.cellsNodup = true := by
+  decide +kernel
+
+example : let m := (ofLists [(0, 0, 0), (1, 1, 0), (2, 0, 1), (3, 1, 1), (4, 2, 2)]
+      [(0, 0, 1), (1, 1, 2), (2, 2, 0), (3, 1, 3), (4, 3, 2), (5, 3, 4)] [(0, [0, 1, 2]), (1, [1, 3, 2])]);
+    m.Consistent = true ∧ m.orphanRemoval.vertices.length = 4 ∧ m.orphanRemoval.edges.length = 5 := by
   decide +kernel
 
 end Forsys
